@@ -27,7 +27,7 @@ import (
 //	installed after the first pass) its label is not charged and further pods receive the same
 //	batch-id: more pods carry (rollout-id, batch i) than batch i adds under the plan.
 var knownOpen = map[string]bool{
-	sigOOR:    true,
+	sigOOR:    false, // repaired by a "fix:" commit in /repo, see /verif/known_findings.json
 	sigHidden: true,
 }
 
